@@ -488,7 +488,7 @@ def dominating_guards(F, fn, b):
             if not fn.edge_dominates(w, dst, b):
                 continue
             l = op_local(t["on"])
-            d = desc_local(fn, l) if l is not None else ("?",)
+            d = desc_local(fn, l) if l is not None else desc_operand(fn, t["on"])
             if t["ty"] == "bool":
                 if len(vals) != 1:
                     continue
@@ -648,3 +648,213 @@ def _lin_rvalue(fn, r, leaf, depth):
         s = leaf(fn, "place", r["a"])
         return {s: 1} if s else None
     return None
+
+
+# ---------------------------------------------------------------------------
+# tiny determinised interpreter: "what does this bool-returning method of `self`
+# answer when self.<field> is variant K?"  Used to look through helper predicates
+# such as `fn can_send(&self) -> bool { self.kind != ChannelKind::ReceiveOnly }`.
+def _promoted_variant(F, fn, o):
+    """variant name when operand o is (a ref to) a promoted constant enum value."""
+    r = fn.root_of(o)
+    if r[0] != "const":
+        return None
+    c = r[1]
+    if "promoted" in c:
+        pf = F.fn(c.get("dbg", ""))
+        if pf is not None:
+            for bi, si, s in pf.stmts():
+                if s["r"]["k"] == "agg" and not s["r"].get("ops"):
+                    return lastseg(s["r"]["adt"])
+        return None
+    dbg = c.get("dbg", "")
+    return lastseg(dbg) if "::" in dbg else None
+
+
+def _is_self_field(fn, o, field):
+    r = fn.root_of(o)
+    if r[0] != "place":
+        return False
+    p = r[1]
+    return p["l"] == 1 and any(e[0] == "field" and e[2] == field for e in p["p"])
+
+
+def eval_bool_under_variant(F, fn, l, field, K, depth=0):
+    """truth of bool local l of fn when self.<field> == K; None when unknown."""
+    if depth > 6:
+        return None
+    sd = fn.single_def(l)
+    if sd is None:
+        return None
+    if sd[0] == "call":
+        t = sd[1]
+        nm = lastseg(t.get("decl") or t["f"])
+        if nm in ("eq", "ne") and len(t["args"]) == 2:
+            a, b = t["args"]
+            v = None
+            if _is_self_field(fn, a, field):
+                v = _promoted_variant(F, fn, b)
+            elif _is_self_field(fn, b, field):
+                v = _promoted_variant(F, fn, a)
+            if v is None:
+                return None
+            return (v == K) if nm == "eq" else (v != K)
+        callee = F.fn(t["f"])
+        if callee is not None and t["args"]:
+            ra = fn.root_of(t["args"][0])
+            if ra == ("arg", 1):
+                return eval_return_under_variant(F, callee, field, K, depth + 1)
+        return None
+    r = sd[1]
+    if r["k"] == "un" and r.get("op") == "Not":
+        ol = op_local(r["a"])
+        v = eval_bool_under_variant(F, fn, ol, field, K, depth + 1) if ol is not None else None
+        return None if v is None else (not v)
+    if r["k"] == "use":
+        if r["a"].get("const"):
+            d = r["a"].get("dbg", "")
+            return True if d == "true" else False if d == "false" else None
+        ol = op_local(r["a"])
+        return eval_bool_under_variant(F, fn, ol, field, K, depth + 1) if ol is not None else None
+    return None
+
+
+def eval_return_under_variant(F, fn, field, K, depth=0):
+    """return value (bool) of method fn(&self, ..) when self.<field> == K, walking the one
+    path the variant selects; None when a branch depends on anything else."""
+    b = 0
+    ret = None
+    seen = set()
+    while b not in seen:
+        seen.add(b)
+        blk = fn.blocks[b]
+        for s in blk["s"]:
+            if s["d"]["l"] == 0 and not s["d"]["p"]:
+                r = s["r"]
+                if r["k"] == "use" and r["a"].get("const"):
+                    d = r["a"].get("dbg", "")
+                    ret = True if d == "true" else False if d == "false" else None
+                elif r["k"] in ("use", "un"):
+                    # computed from another local: evaluate lazily through a fake single-def
+                    ol = op_local(r["a"])
+                    v = eval_bool_under_variant(F, fn, ol, field, K, depth + 1) if ol is not None else None
+                    ret = v if r["k"] == "use" else (None if v is None else (not v))
+                else:
+                    ret = None
+        t = blk["t"]
+        if t["k"] == "return":
+            return ret
+        if t["k"] == "goto":
+            b = t["to"]
+        elif t["k"] == "call":
+            if t["dest"]["l"] == 0 and not t["dest"]["p"]:
+                nm = lastseg(t.get("decl") or t["f"])
+                ret = None
+                if nm in ("eq", "ne") and len(t["args"]) == 2:
+                    a, bb = t["args"]
+                    v = _promoted_variant(F, fn, bb) if _is_self_field(fn, a, field) else _promoted_variant(F, fn, a) if _is_self_field(fn, bb, field) else None
+                    if v is not None:
+                        ret = (v == K) if nm == "eq" else (v != K)
+                else:
+                    callee = F.fn(t["f"])
+                    if callee is not None and t["args"] and fn.root_of(t["args"][0]) == ("arg", 1) and depth < 6:
+                        ret = eval_return_under_variant(F, callee, field, K, depth + 1)
+            if t["to"] is None or t["to"] < 0:
+                return None
+            b = t["to"]
+        elif t["k"] == "switch":
+            if t["ty"] == "bool":
+                l = op_local(t["on"])
+                v = eval_bool_under_variant(F, fn, l, field, K, depth + 1) if l is not None else None
+                if v is None:
+                    return None
+                nxt = None
+                for val, dst in t["targets"]:
+                    if (val != "0") == v:
+                        nxt = dst
+                b = nxt if nxt is not None else t["otherwise"]
+            else:
+                sv = switch_variants(F, fn, b)
+                if not sv or not sv[1]:
+                    return None
+                place = sv[2]
+                if not (place["l"] == 1 and any(e[0] == "field" and e[2] == field for e in place["p"])):
+                    pr = fn.root_of({"copy": place})
+                    if not (pr[0] == "place" and pr[1]["l"] == 1 and any(e[0] == "field" and e[2] == field for e in pr[1]["p"])):
+                        return None
+                nxt = None
+                for val, dst in t["targets"]:
+                    if sv[1].get(val) == K:
+                        nxt = dst
+                b = nxt if nxt is not None else t["otherwise"]
+        elif t["k"] in ("drop", "assert"):
+            b = t.get("to")
+            if b is None or b < 0:
+                return None
+        else:
+            return None
+    return None
+
+
+# ---------------------------------------------------------------------------
+# error raisers: the VM's error entry points and every Vm helper that cannot return
+# without going through one (e.g. a private `undefined_property(name, class)` wrapper)
+ERROR_BASE = ("runtime_error", "runtime_error_from_str", "internal_error", "set_error")
+
+
+def error_raisers(F):
+    cached = getattr(F, "_error_raisers", None)
+    if cached is not None:
+        return cached
+    VM = "<impl laythe_vm::vm::Vm>"
+    out = set()
+    cands = []
+    for fn in F.all_fns():
+        if VM not in fn.path or fn.kind == "Closure":
+            continue
+        if fn.name in ERROR_BASE:
+            out.add(fn.path)
+        else:
+            cands.append(fn)
+    changed = True
+    while changed:
+        changed = False
+        for fn in cands:
+            if fn.path in out:
+                continue
+            blocks = {bi for bi, t in fn.calls() if t["f"] in out}
+            if not blocks:
+                continue
+            rets = [b for b in fn.reachable if fn.blocks[b]["t"]["k"] == "return"]
+            if rets and 0 not in blocks and any(reaches(fn, 0, r, avoid=blocks) for r in rets):
+                continue
+            out.add(fn.path)
+            changed = True
+    F._error_raisers = out
+    return out
+
+
+def is_error_call(F, t):
+    return t.get("k", "call") == "call" and t["f"] in error_raisers(F)
+
+
+def raised_error_classes(F, fn, depth=0):
+    """names of the builtin.errors.<class> fields fn may raise, directly or through a Vm helper
+    that always raises (error_raisers); '?' when the class operand is not a builtin.errors field."""
+    out = set()
+    if depth > 3:
+        return out
+    ER = error_raisers(F)
+    for _, t in fn.calls():
+        n = lastseg(t["f"])
+        if n in ("runtime_error", "runtime_error_from_str") and "<impl laythe_vm::vm::Vm>" in t["f"] and len(t["args"]) > 1:
+            d = desc_operand(fn, t["args"][1])
+            if d[0] == "field" and isinstance(d[2], tuple) and "errors" in d[2]:
+                out.add(d[2][-1])
+            else:
+                out.add("?")
+        elif t["f"] in ER and n not in ERROR_BASE:
+            g = F.fn(t["f"])
+            if g is not None:
+                out |= raised_error_classes(F, g, depth + 1)
+    return out
